@@ -139,6 +139,8 @@ def check(ctx, rep):
     rep.assume("CPython pickle framing: a proper prefix of a pickle never loads successfully (STOP is the last opcode)")
     rep.rule("R11b", "a dbm/shelve index is read completely under the guard and the store itself is not kept (look-ups in a damaged store fail lazily)", floor=1)
     rep.rule("R11c", "a dbm/shelve index is checked for completeness: the writer stores an entry count last, the loader compares it under the guard", floor=1)
+    rep.rule("R11e", "a cache writer starts from an empty file (mode w / x; flag n for a dbm store): whatever a cut-off or concurrent write "
+             "leaves is a prefix of the new cache, which R11a's loaders refuse", floor=2)
     # ---- R11d: what the savers write
     rep.rule("R11d", "a cache is written in place under its own name (which listings ignore): the writer creates no other file in the served tree", floor=1)
     savers = []
@@ -168,6 +170,38 @@ def check(ctx, rep):
                     if d.startswith("tempfile.") or d in ("os.replace", "os.rename", "os.link", "shutil.move", "shutil.copy", "shutil.copyfile", "os.mkstemp") \
                             or d.split(".")[-1] in ("mkstemp", "NamedTemporaryFile", "mkdtemp"):
                         bad.append(f"{g.qualname}: {norm(n)[:50]}")
+        # R11e: how the file is opened for writing
+        for g in closure:
+            for n in ast.walk(g.node):
+                if not isinstance(n, ast.Call):
+                    continue
+                d = dotted(n.func) or ""
+                last = d.split(".")[-1]
+                if last != "open" or d in ("os.open",):
+                    continue
+                modearg = n.args[1] if len(n.args) > 1 else next((k.value for k in n.keywords if k.arg in ("mode", "flag")), None)
+                store = d in ("shelve.open", "dbm.open") or d.startswith("dbm.")
+                if modearg is None:
+                    continue  # reading (the default of open(); of dbm/shelve: "r" / "c" never written by a saver)
+                if isinstance(modearg, ast.Name) and modearg.id in g.params:
+                    continue  # handed through: judged at the caller's open
+                vals = _possible_constants(modearg, g)
+                label = f"{g.qualname}: {norm(n)[:60]}"
+                if vals is None:
+                    rep.add("R11e", label, False, ctx.where(g, n), f"the mode `{norm(modearg)[:40]}` of this open could not be resolved to constants",
+                            key=f"R11e|{g.qualname}|{norm(n.func)}")
+                    continue
+                writing = [v for v in vals if isinstance(v, str) and (store or any(c in v for c in "wax+"))]
+                if not writing:
+                    continue
+                if store:
+                    wrong = [v for v in writing if v != "n"]
+                else:
+                    wrong = [v for v in writing if not (v.startswith("w") or v.startswith("x"))]
+                rep.add("R11e", label, not wrong, ctx.where(g, n),
+                        "" if not wrong else f"the cache is opened with mode {wrong[0]!r}: what is there already stays until it is overwritten, so a writer "
+                        "that is cut off (or a reader that comes in meanwhile) leaves the start of the new cache followed by the rest of the old one - "
+                        "that need not fail to load", key=f"R11e|{g.qualname}|{norm(n.func)}")
         rep.add("R11d", f"{m.qualname}: writes only the cache file itself", not bad, ctx.where(m),
                 f"the cache is written through another file ({bad[0]}): a writer that is interrupted leaves a file under a name no listing ignores - "
                 "the directory then shows (and caches) an entry that is a cut-off cache" if bad else "", key=f"R11d|{m.qualname}")
@@ -314,3 +348,44 @@ def check(ctx, rep):
                     problems.append("after a failed load nothing rebuilds the data")
         rep.add("R11a", f"{f.qualname}: {norm(s.call)[:50]}", not problems, ctx.where(f, s.call),
                 "; ".join(sorted(set(problems))), key=f"R11a|{f.qualname}|{norm(s.call.func)}")
+
+
+def _possible_constants(expr, func, _depth=0):
+    """The constant values an expression can have inside `func`: literals, conditional expressions of them, and locals
+    (or module constants) that are only ever assigned such values.  None when that cannot be told."""
+    if isinstance(expr, ast.Constant):
+        return {expr.value}
+    if isinstance(expr, ast.IfExp):
+        a, b = _possible_constants(expr.body, func, _depth), _possible_constants(expr.orelse, func, _depth)
+        return None if a is None or b is None else a | b
+    if isinstance(expr, ast.BoolOp):
+        parts = [_possible_constants(v, func, _depth) for v in expr.values]
+        return None if any(p_ is None for p_ in parts) else set().union(*parts)
+    if isinstance(expr, ast.Name) and _depth < 3:
+        out, seen = set(), False
+        for n in ast.walk(func.node):
+            values = []
+            if isinstance(n, ast.Assign) and any(isinstance(t, ast.Name) and t.id == expr.id for t in n.targets):
+                values.append(n.value)
+            elif isinstance(n, (ast.AnnAssign, ast.NamedExpr)) and isinstance(n.target, ast.Name) and n.target.id == expr.id and n.value is not None:
+                values.append(n.value)
+            elif isinstance(n, ast.AugAssign) and isinstance(n.target, ast.Name) and n.target.id == expr.id:
+                return None
+            for v in values:
+                seen = True
+                got = _possible_constants(v, func, _depth + 1)
+                if got is None:
+                    return None
+                out |= got
+        if seen:
+            return out
+        vals = func.module.globals.get(expr.id) or []
+        if len(vals) == 1:
+            return _possible_constants(vals[0], func, _depth + 1)
+        return None
+    if isinstance(expr, ast.Attribute) and dotted(expr) and dotted(expr).startswith("self.") and func.cls is not None and _depth < 3:
+        for st_ in func.cls.node.body:
+            if isinstance(st_, ast.Assign) and any(isinstance(t, ast.Name) and t.id == expr.attr for t in st_.targets):
+                return _possible_constants(st_.value, func, _depth + 1)
+        return None
+    return None
